@@ -62,7 +62,7 @@ STATEMENTS = {
 }
 PROPS = {
     "K_ANY": ["C04"], "K_COMMENT": ["C05", "C04"], "K_BLANK": ["C02", "C05"], "K_ENTRY": ["C02", "C17", "C07"],
-    "K_HEADER": ["C02"], "K_CONT": ["C02", "C17", "C14"], "K_BAD": ["C13"], "K_PYCONT": ["C15"], "K_JOIN": ["C15"],
+    "K_HEADER": ["C02"], "K_CONT": ["C02", "C17", "C14", "C07"], "K_BAD": ["C13"], "K_PYCONT": ["C15"], "K_JOIN": ["C15"],
 }
 
 
@@ -144,7 +144,7 @@ def register(J):
             J.append(mk("K_PYCONT", d, c, ctx, 7, True, Q if (d == "eq" and ctx in ("S1", "S5")) or (d == "sp" and ctx == "S1") else T, python=1))
     for d, c in (("eq", "hash"), ("sp", "hash")):
         J.append(mk("K_ENTRY", d, c, "S1", 8, True, Q if d == "eq" else T, python=1, props=["C15", "C02"]))
-    J.append(mk("K_COMMENT", "eq", "hash", "S1", 8, True, T, python=1))
+    J.append(mk("K_COMMENT", "eq", "hash", "S1", 8, True, Q, python=1))
     # C13: malformed lines
     for d, c in (("eq", "hash"), ("coloneq", "semi"), ("sp", "hash"), ("speq", "hashsemi")):
         for ctx in ("S0", "S1", "S3", "S5", "S7"):
